@@ -280,6 +280,21 @@ impl Display for ReadSizeError {
 	}
 }
 
+/// Verification hook: forwards to [`next_value_size`], mapping the error to a
+/// small code (0 = truncated, 1 = invalid marker, 2 = depth limit exceeded).
+#[cfg(feature = "verif")]
+pub(crate) fn verif_next_value_size(input: &[u8], depth_limit: usize) -> Result<usize, u8> {
+	next_value_size(input, depth_limit).map_err(|err| match err {
+		ReadSizeError::Truncated => 0,
+		ReadSizeError::InvalidMarker => 1,
+		ReadSizeError::DepthLimitExceeded => 2,
+	})
+}
+
+/// Verification hook: the depth limit used for every MessagePack input.
+#[cfg(feature = "verif")]
+pub(crate) const VERIF_DEPTH_LIMIT: usize = DEPTH_LIMIT;
+
 #[cfg(test)]
 mod tests {
 	use super::*;
